@@ -139,16 +139,13 @@ impl FormatStringParser<'_> {
     }
 
     fn peek(&self, count: usize) -> Result<&str, Box<dyn Error>> {
-        if self.string.len() < count {
-            return Err("Unexpected EOF".into());
-        }
-
-        Ok(&self.string[0..count])
+        // `None` if the string is too short or `count` is not a character boundary
+        self.string.get(0..count).ok_or_else(|| "Unexpected EOF".into())
     }
 
     fn advance_one(&mut self) -> Result<char, Box<dyn Error>> {
         let c = self.front()?;
-        self.string = &self.string[1..];
+        self.string = &self.string[c.len_utf8()..];
         Ok(c)
     }
 
@@ -201,7 +198,7 @@ impl FormatStringParser<'_> {
         }
     }
 
-    fn parse_format_width(&mut self) -> Option<usize> {
+    fn parse_format_width(&mut self) -> Result<Option<usize>, Box<dyn Error>> {
         let start = self.string;
         let mut digits = 0;
 
@@ -212,11 +209,14 @@ impl FormatStringParser<'_> {
         }
 
         if digits > 0 {
-            // safe to unwrap: we already know all the digits are valid due to
-            // the above checks.
-            Some((start[0..digits]).parse().unwrap())
+            // all the digits are valid due to the above checks, but the number
+            // may still be too large.
+            match (start[0..digits]).parse() {
+                Ok(width) => Ok(Some(width)),
+                Err(_) => Err(format!("Invalid field width: {}", &start[0..digits]).into()),
+            }
         } else {
-            None
+            Ok(None)
         }
     }
 
@@ -252,7 +252,7 @@ impl FormatStringParser<'_> {
             self.advance_one().unwrap();
         }
 
-        let width = self.parse_format_width();
+        let width = self.parse_format_width()?;
 
         let first = self.advance_one()?;
         if first == '%' {
